@@ -355,6 +355,17 @@ def build_items(tier):
                     case = {"verb": verb, "size": size, "k": k, "backend": "memory", "followup": "again" if k % 2 else "pwd",
                             "data_conn": True, "throttle": throttle, "pipe": pipe}
                     items.append((case, 1 if tier == "quick" else 2, kinds))
+    # ... and on the executor-based backend: the aborted worker is still closing its file when the next command is read
+    for verb in ("RETR", "STOR", "LIST"):
+        for pipe in ("SYST", "ABOR", "PWD"):
+            size = 3 * B
+            probe = {"verb": verb, "size": size, "k": 10 ** 9, "backend": "async", "followup": "pwd", "data_conn": True,
+                     "probe": True}
+            n = run_abort(probe, Chooser())["events"]
+            for k in range(1, n + 2):
+                case = {"verb": verb, "size": size, "k": k, "backend": "async", "followup": "again" if k % 2 else "pwd",
+                        "data_conn": True, "pipe": pipe}
+                items.append((case, 1 if tier == "quick" else 2, kinds))
     # the client drops its data connection (close / reset) right before it says ABOR
     for verb in ("RETR", "STOR", "LIST"):
         for giveup in ("close", "reset"):
